@@ -13,7 +13,7 @@ VERIF = facts.VERIF
 KNOWN = os.path.join(VERIF, "known-findings.json")
 REVIEWED = os.path.join(VERIF, "tables", "reviewed-safe.json")
 
-PROPS = ["C01", "C02", "C03", "C04", "C05", "C06", "C07", "C08", "C09", "C10", "C11", "C12", "C14", "C15", "C16"]
+PROPS = ["C01", "C02", "C03", "C04", "C05", "C06", "C07", "C08", "C09", "C10", "C11", "C12", "C13", "C14", "C15", "C16"]
 
 
 class Ob:
